@@ -29,6 +29,10 @@ ITEMS = {
     "text": ("/t", "/t/a.txt", "t/a.txt", "file"),
     "html": ("/t", "/t/b.html", "t/b.html", "file"),
     "gz": ("/t", "/t/c.txt.gz", "t/c.txt.gz", "file"),
+    # sizes at the limits: nothing at all, one byte short of a kilobyte, exactly one
+    "empty": ("/t", "/t/e0.txt", "t/e0.txt", "file"),
+    "k1023": ("/t", "/t/e1023.txt", "t/e1023.txt", "file"),
+    "k1024": ("/t", "/t/e1024.txt", "t/e1024.txt", "file"),
     "dir": ("/t", "/t/sub", "t/sub/", "dir"),
     "mbox": ("/t", "/t/m.mbox", None, "virtual"),
     "message": ("/t/m.mbox", "/t/m.mbox|/MBOX-MESSAGE/1", None, "virtual"),
@@ -38,7 +42,8 @@ ITEMS = {
     "script": ("/t", "/t/run.sh", None, "virtual"),
     "pyg": ("/t", "/t/gen.pyg", None, "virtual"),
 }
-FILE_BYTES = {"t/a.txt": b"A" * 2500, "t/b.html": worlds.HTML, "t/c.txt.gz": worlds.gz(b"zzz\n" * 1000)}
+FILE_BYTES = {"t/a.txt": b"A" * 2500, "t/b.html": worlds.HTML, "t/c.txt.gz": worlds.gz(b"zzz\n" * 1000),
+              "t/e0.txt": b"", "t/e1023.txt": b"k" * 1023, "t/e1024.txt": b"k" * 1024}
 
 
 def contents(maxlines):
@@ -65,7 +70,7 @@ DECOR_NAMES = (b"Path=./a.txt\nName=Decorated A\nNumb=3\n\nPath=./b.html\nName=D
 
 def build(item, sidecars, handlers, decorated=False):
     """sidecars: {ext: bytes}"""
-    spec = {"t": {"a.txt": FILE_BYTES["t/a.txt"], "b.html": FILE_BYTES["t/b.html"], "c.txt.gz": FILE_BYTES["t/c.txt.gz"], "sub": {"inner.txt": b"i\n"}, "m.mbox": worlds.MBOX,
+    spec = {"t": {"a.txt": FILE_BYTES["t/a.txt"], "b.html": FILE_BYTES["t/b.html"], "c.txt.gz": FILE_BYTES["t/c.txt.gz"], "e0.txt": b"", "e1023.txt": FILE_BYTES["t/e1023.txt"], "e1024.txt": FILE_BYTES["t/e1024.txt"], "sub": {"inner.txt": b"i\n"}, "m.mbox": worlds.MBOX,
                   "run.sh": ("exec", b"#!/bin/sh\n# a script whose source is much longer than what it prints ........................................\necho short output\n"),
                   "gen.pyg": ("exec", worlds.PYG)}}
     zmembers = [("m.txt", b"member bytes\n" * 100), ("zd/e.txt", b"e\n")]
@@ -251,7 +256,7 @@ def run(ck):
             for k in range(0, 5):
                 for exts in itertools.combinations([e for e, _ in EXTS], k):
                     items.append((handlers, item, tuple((e, (0, 1), False) for e in exts)))
-            if ITEMS[item][3] == "virtual":
+            if ITEMS[item][3] == "virtual" or item in ("empty", "k1023", "k1024"):
                 continue
             # one sidecar at a time, every content
             if handlers == "full" or item in ("text", "dir"):
